@@ -221,6 +221,8 @@ def build_nodes(spec, count_calls=False, cls=None):
         )
     for c in spec["conns"]:
         kw = {"delay": c["delay"]} if "delay" in c else {}  # expected communication delay (phase) given explicitly
+        if c.get("name"):
+            kw["name"] = c["name"]  # a custom ("shadow") input name: the receiver sees this connection under that name
         if "delay_dist_obj" in c:
             dd = c["delay_dist_obj"]
         else:
